@@ -441,7 +441,7 @@ func c14sweep(dir string, from, to int) []limitRes {
 					var r limitRes
 					fmt.Sscan(p[0], &r.L)
 					r.a, r.t, r.failed = p[1], p[2], p[3] == "true"
-					r.impl = r.a + " " + r.t
+					r.impl = r.a // the state of the archive path; what is left of FILE.tmp is not part of the property
 					out = append(out, r)
 				}
 			}
